@@ -539,6 +539,17 @@ fn c02_histories(ctx: &Ctx, tier: Tier, seed: u64) {
             let al = super::c08::op_alphabet(h.params.kind, &mut r);
             let len = 2 + r.below(7);
             h.ops = (0..len).map(|_| r.pick(&al).clone()).collect();
+            if h.params.kind == PKind::Prm && i % 5 == 4 {
+                // definitions that come and go (the runner frees replaced definitions): P1 answered,
+                // P2 set but never queried, then a new definition (P1's start, P2's goal)
+                let mut p3 = h.problems[0].clone();
+                p3.goal = h.problems[1].goal.clone();
+                p3.infeasible = None;
+                h.problems[0].tags.push("drop-old-definitions".into());
+                h.problems.push(p3);
+                h.ops = vec![Op::Setup(0), Op::Construct, Op::Solve(10), Op::SetPd(1), Op::SetPd(2), Op::Solve(10), Op::SetPd(0), Op::SetPd(1), Op::Solve(10)];
+                b.count("prm_histories_with_short_lived_definitions", 1);
+            }
             b.evaluations += 1;
             with_kit!(h.problems[0].spec, K, kit => {
                 if let Ok((_, recs)) = run_history::<K>(&kit, &h, false, 3_000_000) {
